@@ -102,6 +102,7 @@ class Program:
     def __init__(self):
         self.functions = {}   # sig -> Function
         self.records = {}     # tname -> record dict
+        self.globals = {}     # qualified name -> global variable with the literals of its initialiser
         self.diags = []       # (unit, diag)
         self.units = []
         self.errors = []
@@ -182,6 +183,8 @@ def load_program(repo=REPO, ndebug=True, witness_units=("instantiate.cpp",), ver
                 prog.errors.append((src, dg))
         for r in d["records"]:
             prog.records.setdefault(r["tname"], r)
+        for g in d.get("globals", []):
+            prog.globals.setdefault(g["name"], g)
         for f in d["functions"]:
             if f["sig"] not in prog.functions:
                 prog.functions[f["sig"]] = Function(f, prog)
